@@ -39,6 +39,39 @@ def hostile_payloads(rng, genuine):
     return out
 
 
+def undefined_type_packets(rng, genuine, settings):
+    """completely well-formed packets (magic, lengths, options, checksum, addressed like a genuine one) whose 4-bit type field
+    holds a value the protocol does not define (5..15): no decoder rejects them, so they reach the packet handling itself"""
+    import copy
+    from nintendo.nex import prudp
+    out = []
+    try:
+        sel = prudp.PRUDPMessageSelector(settings)
+    except Exception:
+        return out
+    for g in rng.sample(genuine, min(len(genuine), 4)):
+        try:
+            pk = sel.decode(g)
+        except Exception:
+            continue
+        for p in pk[:1]:
+            for t in rng.sample(range(5, 16), 3):
+                q = copy.copy(p)
+                q.type = t
+                q.flags = rng.choice([0, 1, 2, 2 | 4, 8, p.flags])
+                if rng.random() < 0.3:
+                    q.source_port, q.dest_port = rng.randrange(16), rng.randrange(16)      # also for ports nobody bound
+                try:
+                    enc = sel.select(p.version)
+                    one = enc.encode(q)
+                    out.append(one)
+                    # (never next to a whole genuine packet: a replayed genuine packet is valid traffic, which is C04's subject)
+                    out.append(one + one if rng.random() < 0.5 else out[rng.randrange(len(out))] + one)     # several in one read
+                except Exception:
+                    pass
+    return out
+
+
 def datagram_attack(intensity):
     def attack(sim, out, rng):
         genuine = []
@@ -67,7 +100,8 @@ def datagram_attack(intensity):
                     p.signature = enc.calc_packet_signature(p, b"", enc.calc_connection_signature(ms.ATTACKER))
                     net.inject(ms.ATTACKER, ms.SERVER, enc.encode(p), 0.001)
                     out.injected += 1
-            for payload in rng.sample(hostile_payloads(rng, genuine), 5):
+            ut = undefined_type_packets(rng, genuine, out.settings_s) if rng.random() < 0.5 else []
+            for payload in rng.sample(hostile_payloads(rng, genuine), 5) + ut:
                 mode = rng.choice(["third-to-server", "third-to-server", "spoof-victim-other-port", "to-client", "spoof-server-to-client"])
                 d = rng.choice([0.0, 0.001, 0.004])
                 if mode == "third-to-server":
